@@ -472,7 +472,8 @@ class Checker:
         if wc is not None:
             for r in [x for x in walk_own(wc.node) if isinstance(x, ast.Return) and isinstance(x.value, ast.Call) and src(x.value.func) == 'Wrench']:
                 # Wrench(screw, frame): second positional parameter of Wrench.__init__ is position_applied - frame comes from the screw
-                rep.ob('R12.4', wc, src(r.value), src(r.value.args[0]) == wc.params[1],
+                a0_ = r.value.args[0] if r.value.args else next((k_.value for k_ in r.value.keywords if k_.arg == 'force'), None)
+                rep.ob('R12.4', wc, src(r.value), a0_ is not None and src(a0_) == wc.params[1],
                        'converter does not wrap the computed screw', line=r.lineno)
 
 
@@ -551,10 +552,14 @@ class Checker:
                     args = list(ev[2])
                     if not args:
                         continue
-                    a0 = args[0]
                     pos = [a for a in args if '=' not in a.split('(')[0]]
                     kws = {a.split('=', 1)[0]: a.split('=', 1)[1] for a in args if '=' in a.split('(')[0]}
-                    is_screw = a0.startswith('super().') or a0.startswith('Screw(') or a0.startswith('Wrench(') \
+                    a0 = pos[0] if pos else kws.get('force')
+                    if a0 is None:
+                        continue
+                    if len(pos) < 2 and 'position_applied' in kws:
+                        pos = pos[:1] + [kws['position_applied']]
+                    is_screw = a0.startswith('super().') or a0.startswith('Screw.__') or a0.startswith('Screw(') or a0.startswith('Wrench(') \
                         or any(v and k.replace(' ', '') in ('isinstance(%s,Screw)' % a0, 'isinstance(%s,Wrench)' % a0, 'isinstance(%s,(Screw,Wrench))' % a0)
                                for k, v in pth.facts.items())
                     frame = kws.get('frame_applied', pos[2] if len(pos) >= 3 else None)
